@@ -368,6 +368,20 @@ func coqTab(m map[string]bool) string {
 	return b.String()
 }
 
+func coqParts(m map[string][2]string) string {
+	keys := make([]string, 0, len(m))
+	for k := range m {
+		keys = append(keys, k)
+	}
+	sort.Strings(keys)
+	var b strings.Builder
+	for _, k := range keys {
+		b.WriteString("(pc " + S(k) + " " + S(m[k][0]) + " " + S(m[k][1]) + " ")
+	}
+	b.WriteString("pn" + strings.Repeat(")", len(keys)))
+	return b.String()
+}
+
 // Case is one correspondence case with the ids of the strings its literal refers to.
 type Case struct {
 	Coq  string
@@ -375,7 +389,15 @@ type Case struct {
 	Used []int
 }
 
-func mk(coq string, j interface{}) Case { return Case{Coq: coq, JSON: j, Used: in.take()} }
+// the JSON description is serialised at once (a driver that keeps 25 000 object graphs alive is the
+// first victim when the machine runs out of memory)
+func mk(coq string, j interface{}) Case {
+	b, err := json.Marshal(j)
+	if err != nil {
+		b = []byte("{}")
+	}
+	return Case{Coq: coq, JSON: json.RawMessage(b), Used: in.take()}
+}
 
 // WriteShards is this driver's variant of common.WriteShards (same outputs: cases.jsonl and
 // Cases_<k>.v printing R and KL), with a per-shard string table in front of the cases.
